@@ -4,6 +4,7 @@ package main
 // is recorded and listed in the evidence file.
 
 import (
+	"encoding/hex"
 	"fmt"
 	"go/types"
 	"strconv"
@@ -123,6 +124,21 @@ func stubTable() map[string]stubFn {
 		return strings.Repeat(mustStr(fr, args[0], "Repeat"), argInt(args[1]))
 	}
 	// ---- strconv ----
+	m["encoding/hex.EncodeToString"] = func(in *Interp, fr *frame, args []Value) Value {
+		sl, ok := args[0].(Slice)
+		if !ok || sl.nilS {
+			return ""
+		}
+		bs := make([]byte, sl.len)
+		for i := 0; i < sl.len; i++ {
+			c, isC := in.sliceGet(fr, sl, i).(*Term).Const()
+			if !isC {
+				return &SymStr{tag: "hex", args: []Value{args[0]}}
+			}
+			bs[i] = byte(c)
+		}
+		return hex.EncodeToString(bs)
+	}
 	m["strconv.Itoa"] = func(in *Interp, fr *frame, args []Value) Value {
 		t := args[0].(*Term)
 		if c, ok := t.SConst(); ok {
